@@ -937,13 +937,24 @@ class Interp:
 
     def symbolic_while(self, st, env):
         declared = self._loop_enter(st, env)
+        spec = self.loop_spec() or {}
         if self.test(self.eval(st.test, env)):
+            measure = spec.get("__decreases__")
+            m0 = measure(self, env) if measure is not None else None
+            self._loop_trace_mark = len(self.trace)
             try:
                 self.exec_block(st.body, env)
             except _Break:
                 return
             except _Continue:
                 pass
+            if measure is not None:
+                # termination: every iteration that goes round again strictly decreases a measure that is bounded below
+                m1 = measure(self, env)
+                self.call_obligations.append(("termination:measure-decreases", z3.And(m0.e >= 0, m1.e < m0.e), list(self.facts), list(self.pc)))
+            elif spec.get("__while__"):
+                from . import shapes
+                shapes.note_obligation(self, "termination:measure-declared", False, f"while loop at line {st.lineno} verified by the invariant rule has no declared measure")
             self._loop_step_done(declared, env)
         self.exec_block(st.orelse, env)
 
